@@ -80,6 +80,27 @@ def build_const(c):
     raise ValueError(t)
 
 
+def disturb(m):
+    """the caller edits the model object it was given (its own copy, as far as it knows)"""
+    import stix2.patterns as P
+    x = m
+    for _ in range(6):
+        if isinstance(x, P._ComparisonExpression):
+            x.negated = not x.negated
+            return
+        for attr in ("operand", "observation_expression", "expression"):
+            if hasattr(x, attr):
+                x = getattr(x, attr)
+                break
+        else:
+            ops = getattr(x, "operands", None)
+            if ops:
+                ops.reverse()
+                x = ops[0]
+            else:
+                return
+
+
 def print_line(a, text, how, version="2.1"):
     from stix2.pattern_visitor import create_pattern_object
     iv = IP.in_vocab(a)
@@ -93,6 +114,19 @@ def print_line(a, text, how, version="2.1"):
     q = IP.project(m)
     s1 = str(m)
     line.update(parse_ok=True, tq=s1, same_pq=IP.norm(q) == IP.norm(a))
+    # a model object belongs to the caller: whatever happens to it, or whatever the library does with the same text elsewhere (the equivalence functions normalise
+    # the models they build in place), a later parse of the same text must give the same model again
+    try:
+        from stix2.equivalence.pattern import equivalent_patterns
+        if version == "2.1":
+            equivalent_patterns(text, text, stix_version="2.1")
+        disturb(m)
+        q_again = IP.project(create_pattern_object(text, version=version))
+        if IP.norm(q_again) != IP.norm(q):
+            line["same_pq"] = False
+            line["how"] = how + ":second_parse_after_other_use"
+    except Exception:  # noqa  (totality of the equivalence functions is C09's business)
+        pass
     ivq = iv and IP.in_vocab(q)
     if iv and not ivq:
         line["invocab"] = False       # the projection left the vocabulary: judged on structure by the harness flags
